@@ -128,6 +128,45 @@ func rulesC03(c *Ctx) {
 		c.Check(ok, "C03.sibling", n+":Insert(value=nil)", pos, "nil value handling: "+normal[n], "this implementation of Insert stores a nil value as is while a sibling normalises nil to the empty value: after Insert(k,nil) the key reads as absent through this layer but as present-with-empty-value once committed to the inner tree (a commit changes an answer)")
 	}
 
+	// overlay bookkeeping: Insert and Remove always record the key as dirty; only Commit forgets dirtiness
+	for _, m := range []string{"Insert", "Remove"} {
+		fn := c.needFn("C03.overlay", "storage/mkvs.(*treeOverlay)."+m)
+		if fn == nil {
+			continue
+		}
+		var marks []ssa.Instruction
+		for _, b := range fn.Blocks {
+			for _, in := range b.Instrs {
+				if mu, ok := in.(*ssa.MapUpdate); ok && strings.HasSuffix(vstr(mu.Map), "param:o.dirty") && vstr(mu.Value) == "true" {
+					marks = append(marks, in)
+				}
+			}
+		}
+		cut := NewCut()
+		for _, x := range marks {
+			cut.AddInstr(x)
+		}
+		hit := Reach(fn, nil, nil, func(i ssa.Instruction) bool { _, r := i.(*ssa.Return); return r }, cut)
+		c.Check(len(marks) > 0 && hit == nil, "C03.overlay", fname(fn)+":always-marks-dirty", c.P.Pos(fn.Pos()), "every exit has recorded the key as dirty", "an exit of the overlay's "+m+" does not record the key as dirty: the inner tree's value would shine through (Get/iterate/Commit see the old value)")
+	}
+	{
+		bad := 0
+		for _, fn := range c.P.FuncsInPkg("storage/mkvs") {
+			for _, call := range callsIn(fn) {
+				if calleeName(call) == "builtin.delete" && strings.HasSuffix(vstr(allArgs(call)[0]), ".dirty") && fname(fn) != "storage/mkvs.(*treeOverlay).Commit" {
+					bad++
+					c.Fail("C03.overlay", "dirty-forgotten<-"+fname(fn), c.P.InstrPos(call), "the overlay's dirty mark of a key is dropped outside Commit")
+				}
+			}
+		}
+		if bad == 0 {
+			c.OK("C03.overlay", "dirty-marks-only-cleared-by-Commit", "", "no delete(o.dirty, …) outside (*treeOverlay).Commit")
+		}
+	}
+
+	// eviction safety: a pointer marked dirty is withdrawn from the eviction list (shared with C02)
+	dirtyRollbackRule(c, "C03.evict")
+
 	// ---- (b) transaction-context discipline
 	nTx := 0
 	for _, fn := range c.P.ModFuncs {
